@@ -867,6 +867,9 @@ func (vc *VC) scriptOpt(upto int, path Term, goal Term, wantModel bool, dropQuan
 	}
 	b.WriteString("(set-logic ALL)\n")
 	for _, d := range vc.decls {
+		if dropQuant && strings.HasPrefix(d, "(assert (forall ") {
+			continue // the quantified well-formedness facts of the heaps go with the other quantified assumptions
+		}
 		b.WriteString(d)
 		b.WriteByte('\n')
 	}
